@@ -21,7 +21,7 @@ CHECKS = {
                 text="TLC checks mirror = table at every public-operation return for all histories incl. the reload protocol (net difference only); every operation of the real table logs the callbacks it emitted and TLC requires exactly the predicted bag (none missing, extra or repeated) and mirror equality.",
                 note="as C01; histories driven by cache responses are covered by the protocol checks (C03)"),
     "C10": dict(engine="tables", cat="model_checking", ref="5/C10",
-                technique="TLC on SpkiTable.tla (set semantics, both lookups, callback mirror, reload protocol) + trace validation of the real spki_table against SpkiTableTrace.tla",
+                technique="TLC on SpkiTable.tla (set semantics, both lookups, callback mirror, reload protocol) and on HashLin.tla (tommy_hashlin step for step: incremental grow/shrink and their reversals) + trace validation of the real spki_table against SpkiTableTrace.tla and of the real tommy_hashlin, shape for shape, against HashLinTrace.tla",
                 text="TLC checks the key-table contract exhaustively over a 9-entry universe incl. the copy/swap/notify-diff protocol; the real table is bound by replaying TLC-generated histories with a full lookup sweep after every step and by seeded histories whose sizes walk across the linear-hash resize steps with AS numbers colliding in the hash, every lookup result (as a bag) and every callback bag recomputed by TLC.",
                 note="bounded constants on the model side; finite seeded samples on the code side; NDEBUG+ASan build; trusts TLC and the harness's logging"),
     "C03": dict(engine="fsm", cat="model_checking", ref="5/C03",
@@ -77,7 +77,7 @@ CHECKS = {
                 text="A writer thread runs a seeded history on both tables and publishes an operation counter around every call; readers validate, look up keys and enumerate, logging the counter at call and return; TLC replays the writer's history on PfxTable/SpkiTable semantics (RFC 6811 oracle) and accepts a read iff some version inside its interval gives that answer. The same workload in a TSan build: any data-race report on rtrlib/tommyds frames is a violation; ASan turns use-after-free by a reader into a crash.",
                 note='lock-protocol model exhaustive for 2 readers x 3 mutations; on the code side schedules are sampled by the OS scheduler (plus one steered reader for C06); acceptance criteria are sound for any schedule, a race window can be missed; ASan/TSan as instruments'),
     "C06": dict(engine="conc", cat="model_checking", ref="5/C06",
-                technique="TableConc.tla for the lock protocol + trace validation (ConcTrace.tla) of reader threads running against atomic reloads performed by the real rtr_sync(); one reader is steered (link-time wrap of pthread_rwlock_rdlock) to sit at the lock across each reload",
+                technique="TLC on ReloadConc.tla (the reload protocol step by step: copy under the read lock, private build, swap of both root pointers under the write lock, diff, free of the old generation; OneGeneration, NoUseAfterFree, Fresh, RaceFree over every interleaving with two readers) and TableConc.tla + trace validation (ConcTrace.tla) of reader threads running against atomic reloads performed by the real rtr_sync(); one reader is steered (link-time wrap of pthread_rwlock_rdlock) to sit at the lock across each reload",
                 text="The real rtr_sync() reloads thousands of records (scripted in-memory transport, with and without router keys) while readers validate probe routes and look up probe keys; each read logs a global sequence number at call and return and the generations complete / in progress; TLC accepts a read iff it equals the data of exactly one generation in that window (never empty or mixed) and no read that starts after another returned sees an older generation (per table).",
                 note='lock-protocol model exhaustive for 2 readers x 3 mutations; on the code side schedules are sampled by the OS scheduler (plus one steered reader for C06); acceptance criteria are sound for any schedule, a race window can be missed; ASan/TSan as instruments'),
     "C11": dict(engine="bgpsec", cat="exploration", ref="5/C11",
